@@ -174,6 +174,9 @@ fn main() {
         "explore" => explore(&args),
         "kernels" => props::c11::run(&args),
         "bq" => props::c12::run(&args),
+        "fixtures" => props::c16::run(&args),
+        "fixtures-gen" => props::c16::generate(&args),
+        "upgrade" => props::c17::run(&args),
         "snap" => props::c08::run(&args),
         "crash-child" => props::c09::child(&args),
         "crash-verify" => props::c09::verify(&args),
